@@ -49,7 +49,21 @@ pub fn run_on_kernel(cfg: simkernel::KConfig, body: impl FnOnce()) -> Result<sim
     // the descriptor ledger: the body creates and drops its runtime and everything it opened
     let leaked: Vec<String> = fds_after.iter().filter(|(fd, _)| !fds_before.iter().any(|(b, _)| b == fd)).map(|(fd, what)| format!("{fd} -> {what}")).collect();
     let vanished: Vec<String> = fds_before.iter().filter(|(fd, _)| !fds_after.iter().any(|(a, _)| a == fd)).map(|(fd, what)| format!("{fd} -> {what}")).collect();
+    let leaked_fds: Vec<i32> = fds_after.iter().filter(|(fd, _)| !fds_before.iter().any(|(b, _)| b == fd)).map(|(fd, _)| *fd).collect();
+    if !leaked_fds.is_empty() && leaked_fds.iter().all(|fd| end.lost_closes.contains(fd)) {
+        // kept apart from other leaks, see known_findings.txt
+        for fd in &leaked_fds {
+            unsafe { libc::close(*fd) };
+        }
+        return Err(Violation::new(
+            "close-lost-at-runtime-drop",
+            format!("the runtime was dropped while the Close request of {} descriptor(s) was still unsubmitted or queued in the ring; it never ran and nothing closes them any more: {leaked:?}", leaked_fds.len()),
+        ));
+    }
     if !leaked.is_empty() {
+        for fd in &leaked_fds {
+            unsafe { libc::close(*fd) };
+        }
         return Err(Violation::new("fd-leak", format!("descriptors still open after the runtime and everything the program opened were dropped: {leaked:?}")));
     }
     if !vanished.is_empty() {
@@ -68,6 +82,9 @@ fn open_fds() -> Vec<(i32, String)> {
         let Ok(fd) = e.file_name().to_string_lossy().parse::<i32>() else { continue };
         let Ok(target) = std::fs::read_link(e.path()) else { continue }; // the directory handle itself
         let t = target.to_string_lossy().to_string();
+        if t.starts_with("/proc/") && t.ends_with("/fd") {
+            continue; // the handle this listing itself uses
+        }
         let kind = t.split(':').next().unwrap_or("").trim_start_matches("anon_inode").to_string();
         v.push((fd, if t.starts_with('/') { t } else { format!("{kind}{}", if t.contains("anon_inode") { t.clone() } else { String::new() }) }));
     }
